@@ -622,6 +622,10 @@ fn execute(sc: &Scenario, mode: Mode, path: &std::path::Path, st: &mut St) -> Re
         viol.push(("deadlock".into(), d.clone()));
         return Ok(Outcome { trace, violations: viol });
     }
+    if let Some(d) = &trace.spin {
+        viol.push(("non-termination:worker-spins-while-everybody-else-stands-still".into(), d.clone()));
+        return Ok(Outcome { trace, violations: viol });
+    }
     if trace.inconclusive.is_some() {
         return Ok(Outcome { trace, violations: viol });
     }
@@ -1073,6 +1077,14 @@ fn handle(ctx: &Ctx, shard: &mut Shard, st: &mut St, sc: &Scenario, out: &Outcom
         let mut r = replay.clone();
         r["schedule_readable"] = serde_json::json!(sched_txt);
         shard.violation(ctx, sig, &format!("[{} r={} w={} commits={} grow_at={} via {}] {}", sc.property, sc.readers, sc.writers.max(1), sc.commits, sc.grow_at, how, detail), &r);
+    }
+    if out.trace.spin.is_some() {
+        // the spinning thread cannot be stopped and would compete with everything that follows (and its
+        // database handle stays alive): this worker process reports what it has and ends here
+        shard.count("executions", st.executions);
+        shard.notes.push("a worker thread spins for ever: this shard stopped after reporting it".into());
+        shard.write(&ctx.out);
+        std::process::exit(0);
     }
     if shard.samples.len() < 2 && out.trace.preemptions >= 1 && out.trace.decisions.len() > 10 {
         let sched_txt: Vec<String> = out.trace.decisions.iter().take(40).map(|d| format!("w{}@{}", d.chosen, sched::point_name(d.at))).collect();
